@@ -237,7 +237,12 @@ class WebhooksRegistry(ResourceRegistry[handlers.WebhookHandler, causes.WebhookC
                 # Only the handlers for the hinted webhook, if possible; if not hinted, then all.
                 matching_reason = cause.reason is None or cause.reason == handler.reason
                 matching_webhook = cause.webhook is None or cause.webhook == handler.id
-                if matching_reason and matching_webhook:
+                # The declared operations are normally enforced by the apiserver via the managed
+                # webhook rules; enforce them here too for manually configured (unhinted) webhooks.
+                matching_operation = (not handler.operations or cause.operation is None or
+                                      '*' in handler.operations or
+                                      cause.operation in handler.operations)
+                if matching_reason and matching_webhook and matching_operation:
                     # For deletion, exclude all mutation handlers unless explicitly enabled.
                     non_mutating = handler.reason != causes.WebhookType.MUTATING
                     non_deletion = cause.operation != 'DELETE'
